@@ -129,3 +129,34 @@ lemma("tag_dictionary_round_trips",
           forall([BYTES], lambda b: Implies(In(b, td), In(Dec8(b), r))),
           forall([STR], lambda n: Implies(In(n, r), exists([BYTES], lambda b: And(In(b, td), Dec8(b) == n, r[n] == td[b]))))],
       lambda d, td, r: And(In(N0(), r) == In(N0(), d), Implies(In(N0(), d), r[N0()] == d[N0()])))
+
+# ---- InterTags.merge: the orchestration - the target's tags are always reconciled with the source's (under the target's write lock), and
+#      the target's master branch too unless the caller asked to leave it alone
+BRX = Opaque("BranchX")
+always_truthy(BRX, "branch objects define neither __bool__ nor __len__")
+TAGSX = cls("TagsX", fields={"branch": BRX})
+IT = cls("InterTags", fields={"source": TAGSX, "target": TAGSX})
+MasterOf = ufunc("MasterOf", BRX, Opt(BRX))
+SupportsTags = ufunc("SupportsTags", BRX, BOOL)
+SourceTags = ufunc("SourceTags", TAGS)
+assumed("self.source.branch.supports_tags", pure=True, no_raise=True, returns=lambda c: SupportsTags(c.self.source.branch))
+assumed("self.source.get_tag_dict", pure=True, returns=lambda c: SourceTags(), raises={"Exception": None})
+assumed("self.target.branch.lock_write", raises={"Exception": "unchanged"}, note="takes the target branch's write lock")
+assumed("self.target.branch.get_master_branch", pure=True, returns=lambda c: MasterOf(c.self.target.branch), raises={"Exception": None})
+assumed("master.lock_write", raises={"Exception": "unchanged"})
+assumed("stack.enter_context", pure=True, raises={"Exception": None})
+assumed("self._merge_to", result=Tup(MapS(STR, ANY), Seq(ANY)), raises={"Exception": "unchanged"}, note="InterTags._merge_to, verified above")
+target("breezy/tag.py::InterTags.merge", params=dict(overwrite=BOOL, ignore_master=BOOL, selector=Opt(ANY)), locals=dict(master=Opt(BRX)),
+       ensures={"target_always_and_master_unless_told_otherwise": lambda c: If(
+                    Or(c.self.source.branch == c.self.target.branch, Not(SupportsTags(c.self.source.branch)), Not(truthy(SourceTags()))),
+                    lift(c.calls("self._merge_to") == 0),
+                    If(Or(c.old.ignore_master, MasterOf(c.self.target.branch).is_none),
+                       lift(c.calls("self._merge_to") == 1), lift(c.calls("self._merge_to") == 2))),
+                "tags_are_changed_only_under_the_targets_write_lock": lambda c: lift(
+                    c.before("self.target.branch.lock_write", "self._merge_to")
+                    and (c.calls("self._merge_to") == 0 or c.calls("self.target.branch.lock_write") == 1)),
+                "the_master_is_locked_before_its_tags_change": lambda c: lift(c.calls("self._merge_to") < 2 or c.calls("master.lock_write") == 1)},
+       raises={"Exception": True},
+       canary=lambda c: lift(c.calls("self._merge_to") == 0),
+       equivalent_mutants={r"updates\.update|conflicts \+=|retnone|return updates": "the report of what changed (outside 'what ends up stored')"},
+       note="which tag stores are reconciled")
